@@ -37,7 +37,8 @@ func runC19(r *Run, p *Prog) {
 	// roles
 	var parser *ssa.Function // Service method that splits its string parameter at ":"
 	for _, f := range p.FuncsOf(pkgVarlink) {
-		if f.Signature.Recv() == nil || !isNamed(f.Signature.Recv().Type(), pkgVarlink, "Service") {
+		// (a method of the Service or of a state struct the Service holds by value: `(*endpoint).parse`)
+		if f.Signature.Recv() == nil || !isServiceState(f.Signature.Recv().Type()) {
 			continue
 		}
 		for _, cs := range callsNamed(f, false, "strings.SplitN", "strings.Split", "strings.Cut", "strings.Index", "strings.IndexByte") {
@@ -134,7 +135,7 @@ func runC19(r *Run, p *Prog) {
 				if res.Len() == 0 || !isErrorType(res.At(res.Len()-1).Type()) {
 					continue
 				}
-				used := false
+				used := alwaysNilError(t) // nothing to examine: every return statement of the callee returns a nil error
 				for _, ref := range *call.Referrers() {
 					switch x := ref.(type) {
 					case *ssa.DebugRef:
@@ -214,7 +215,11 @@ func runC19(r *Run, p *Prog) {
 			}
 		}
 	}
-	stringFields(ro.ServiceT, "", 0)
+	recvT := types.Type(ro.ServiceT)
+	if pt, ok := parser.Signature.Recv().Type().(*types.Pointer); ok {
+		recvT = pt.Elem()
+	}
+	stringFields(recvT, "", 0)
 	succ := successReturns(T, parser)
 	if len(succ) == 0 {
 		r.Unresolved("A2", "success return of the address parser")
@@ -1243,4 +1248,23 @@ func convOf(v ssa.Value) ssa.Value {
 		return c.X
 	}
 	return v
+}
+
+// alwaysNilError: the last result of every return of f is the constant nil (`return s.listener, nil`).
+func alwaysNilError(f *ssa.Function) bool {
+	n := 0
+	for _, b := range f.Blocks {
+		for _, in := range b.Instrs {
+			ret, ok := in.(*ssa.Return)
+			if !ok || len(ret.Results) == 0 {
+				continue
+			}
+			c, isC := ret.Results[len(ret.Results)-1].(*ssa.Const)
+			if !isC || !c.IsNil() {
+				return false
+			}
+			n++
+		}
+	}
+	return n > 0
 }
